@@ -182,11 +182,16 @@ func runOne(t *testing.T, p *simkit.Prop, c *simkit.Case, idx int, keep bool) *s
 			} else {
 				simkit.SetYield(0, 1)
 			}
+			simkit.SetStall(uint64(c.Cfg["stall_den"]), uint64(c.Cfg["stall_max_us"])*1000)
 			simkit.SchedSeed(c.SchedSeed)
 			simkit.SetWallLimit(int64(maxWall))
 			run.T0 = time.Now()
 			p.Exec(run)
 			run.EndNs = int64(time.Since(run.T0))
+			if n := simkit.StallCount(); n > 0 {
+				run.FaultN("exec_stall", int(n))
+			}
+			simkit.SetStall(0, 0)
 			// Time stops when the bubble's root function returns: let every timeout of
 			// the torn-down system (stream deadlines, dial timeouts, back-offs, grace
 			// periods) expire first, so that only real leaks remain blocked.
